@@ -1,9 +1,9 @@
 (* Props_C06.v -- property C06 (thread pool).  ONLY statements closed by `exact`.
    Proved for EVERY schedule (list of thread choices, spurious wake-ups included), every pool flavour,
    every number of submitters / workers / tasks.  NOT proved here (decided per run by the deterministic
-   scheduler harness and its monitors only): wait-all / wait-current completeness, quiescence after free,
-   deadlock freedom -- see DESIGN.md. *)
-From LM Require Import Base Thpool ThpoolProofs.
+   scheduler harness and its monitors only): wait-all / wait-current completeness, deadlock freedom, bounded
+   parallelism -- see DESIGN.md. *)
+From LM Require Import Base Thpool ThpoolProofs ThpoolQuiesce.
 
 (* tasks are conserved by every transition: a task is always in exactly one place *)
 Theorem C06_tasks_conserved : forall p ch x, cnt x (everywhere (step p ch)) = cnt x (everywhere p).
@@ -17,6 +17,34 @@ Theorem C06_at_most_once_right_argument : forall lazy det mx md subs sched,
   (forall k, In k (p_discarded p) -> ~ In k (map fst (p_started p))).
 Proof. exact at_most_once. Qed.
 Print Assumptions C06_at_most_once_right_argument.
+
+(* quiescence: after the pool is freed no pool thread touches it again -- the ghost counter of accesses to a destroyed pool
+   stays 0 under EVERY schedule (safety invariant QInv: lock ownership, alive counter, joined workers, ...) *)
+Theorem C06_no_touch_after_free : forall lazy det mx md subs sched,
+  p_touch_after_free (run_sched (init lazy det mx md subs) sched) = 0.
+Proof. exact no_touch_after_free. Qed.
+Print Assumptions C06_no_touch_after_free.
+
+Theorem C06_destroyed_means_quiescent : forall lazy det mx md subs sched,
+  let p := run_sched (init lazy det mx md subs) sched in
+  p_destroyed p = true ->
+  forall t th, nth_error (p_threads p) t = Some th ->
+    match th with TWorker pc => pc = WDone | TSub _ => sub_done th = true | TFree _ => True end.
+Proof. exact destroyed_means_quiescent. Qed.
+Print Assumptions C06_destroyed_means_quiescent.
+
+(* the pool lock really is a lock in the model: two threads are never both inside a critical section *)
+Theorem C06_lock_mutual_exclusion : forall lazy det mx md subs sched,
+  let p := run_sched (init lazy det mx md subs) sched in
+  forall t1 t2 th1 th2, nth_error (p_threads p) t1 = Some th1 -> nth_error (p_threads p) t2 = Some th2 ->
+    holds th1 = true -> holds th2 = true -> t1 = t2.
+Proof. exact lock_mutual_exclusion. Qed.
+Print Assumptions C06_lock_mutual_exclusion.
+
+(* the invariant is inductive for ANY pool state satisfying it, not only for runs from init *)
+Theorem C06_invariant_inductive : forall p ch, QInv p -> QInv (step p ch).
+Proof. exact step_qinv. Qed.
+Print Assumptions C06_invariant_inductive.
 
 (* non-vacuity: a lazy detached pool, two submitters, one schedule that runs everything and frees the pool *)
 Example C06_nonvacuous :
